@@ -68,6 +68,33 @@ def out (cfg : RCfg) (evs : List Ev) : List Bool → List BackOff → Nat → Ou
       let d := match b with | .dur d => d | .stop => 0
       { r with log := [.send false, .next tries b, .sleep d] ++ r.log }
 
+/-! ### the pause schedule of one `Out` call
+
+  `exponentionalBackoff` is a local of `Out`, `Reset()` at its start: the n-th `NextBackOff()` of a call draws
+  from the interval of *that call's own* attempt index n. cenkalti/backoff: current interval `I₀ = MinRetention`,
+  `Iₙ₊₁ = if Iₙ ≥ MaxInterval / Multiplier then MaxInterval else Iₙ · Multiplier`; the answer is uniform in
+  `[Iₙ − Iₙ/2, Iₙ + Iₙ/2 + 1)` (RandomizationFactor 0.5). Durations in nanoseconds. -/
+
+def maxIntervalNs : Nat := 60 * 1000000000   -- backoff.DefaultMaxInterval
+
+def interval (minRet mult : Nat) : Nat → Nat
+  | 0 => minRet
+  | n+1 => let i := interval minRet mult n
+           if i * mult ≥ maxIntervalNs then maxIntervalNs else i * mult
+
+/-- bounds of the n-th pause of a call (2 ns of slack for the float → Duration truncations) -/
+def pauseLo (minRet mult n : Nat) : Nat := interval minRet mult n / 2 - 1
+def pauseHi (minRet mult n : Nat) : Nat := interval minRet mult n + interval minRet mult n / 2 + 2
+
+def pauseOk (minRet mult n d : Nat) : Bool := pauseLo minRet mult n ≤ d && d ≤ pauseHi minRet mult n
+
+/-- the back-off oracle follows the library's schedule for a fresh, unshared `ExponentialBackOff` -/
+def BacksWellFormed (minRet mult : Nat) (backs : List BackOff) : Prop :=
+  ∀ n d, backs[n]? = some (.dur d) → pauseOk minRet mult n d = true
+
+def sleepsOf (log : List REv) : List Nat := log.filterMap (fun e => match e with | .sleep d => some d | _ => none)
+def dursOf (backs : List BackOff) : List Nat := backs.filterMap (fun b => match b with | .dur d => some d | .stop => none)
+
 def failedSends (log : List REv) : Nat := (log.filter (fun e => match e with | .send false => true | _ => false)).length
 def errorCalls (log : List REv) : Nat := (log.filter (fun e => match e with | .onError _ => true | _ => false)).length
 def failedIds (log : List REv) : List Nat := log.filterMap (fun e => match e with | .fail id => some id | _ => none)
